@@ -158,7 +158,8 @@ CHECKS = {
         text="Data clauses: the 6/4/12 combo tables are complete and duplicate-free (so all() over them is a complete test); "
              "each probe combo of rank_pairs() is a member of the table of the rank pair it probes, the all() runs over that "
              "same rank pair and compares each combo's weight with the probe's weight (closure captures resolved), the "
-             "probe's weight is what is reported; the loops cover all 13+78+78 rank pairs; orphan_card_pairs removes from a "
+             "probe's weight is what is reported, and nothing but an absent probe or a failed all() keeps a pair from being reported; "
+             "the loops cover all 13+78+78 rank pairs; orphan_card_pairs removes from a "
              "clone exactly the combos of the reported pairs. The weight logic over partial patterns is NOT decided.",
         ref="DESIGN.md §4 C12",
         note=TB + ".",
@@ -209,7 +210,8 @@ CHECKS = {
              "closed; single / + / span chosen by the run's ends per path; start's weight; no early exit; suited and offsuit passes are "
              "checked by the same template = sibling agreement); row domains and pass order pockets → suited → offsuit → leftovers; the "
              "leftover pass emits every present leftover combo in table order; (3) a token's text determines its weight (suffix iff != 1.0, "
-             "default f32 Display). What remains trusted is the template matcher and std's Option/HashMap semantics.",
+             "default f32 Display); (4) rank_pairs(), which the passes merge, reports a rank pair exactly when its probe combo is present "
+             "and all its combos carry the probe's weight - no further condition may drop a complete pair (C12's reporting rule). What remains trusted is the template matcher and std's Option/HashMap semantics.",
         ref="DESIGN.md §4 C17",
         note=TB + "; Vec / RankRange / SuitRange iterate in fixed order.",
         technique="static analysis: effect audit of hash-ordered loops and iterator chains over the reachable call graph",
